@@ -310,7 +310,7 @@ func (d *Decls) rangeAssume(t string, typ types.Type, allocTerm string, depth in
 			return fmt.Sprintf("(and (<= %s %s) (<= %s %s))", smtInt(r.lo), t, t, smtInt(r.hi))
 		}
 		if u.Info()&types.IsString != 0 {
-			return fmt.Sprintf("(and (>= %s 0) (>= (strlen %s) 0))", t, t)
+			return fmt.Sprintf("(and (>= %s 0) (>= (strlen %s) 0) (<= (strlen %s) 9223372036854775807))", t, t, t)
 		}
 		return ""
 	case *types.Pointer, *types.Map:
